@@ -52,7 +52,7 @@ if os.path.exists(notes):
 mf = d + "/meta.json"
 meta = json.load(open(mf)) if os.path.exists(mf) else {}
 meta.update({"id": sid, "property": a.prop, "title": title[:200], "needs_to_manifest": "see notes.md",
-             "author": "fresh sub-agent given only the property text and a scratch worktree of /repo (round 3)", "rebased": False})
+             "author": "fresh sub-agent given only the property text and a scratch worktree of /repo (later round)", "rebased": False})
 if conf: meta["confirmed"] = conf
 json.dump(meta, open(mf, "w"), indent=1)
 props = [a.prop] + [p for p in a.also.split(",") if p and p != a.prop]
